@@ -580,7 +580,14 @@ impl Prop for C10 {
     fn shrink(&self, case: &Case) -> Vec<Case> {
         let mut out = Vec::new();
         // new sequences need a new script: try a few script seeds per shrunk input
+        // (not for giants: a random history over a million items keeps Compact
+        // busy for minutes, and the wall-clock bound of the minimiser cannot
+        // interrupt a running candidate)
+        let giant = case.seq.old.len() + case.seq.new.len() > 20_000;
         for s in shrink_seq(&case.seq) {
+            if giant && s.old.len() + s.new.len() > 20_000 {
+                continue;
+            }
             for t in 0..6u64 {
                 let mut c = case.clone();
                 c.seq = s.clone();
